@@ -313,11 +313,22 @@ func stringLength1(context Context, args ...Result) (Result, error) {
 }
 
 func normalizeSpace0(context Context, args ...Result) (Result, error) {
-	return String(strings.TrimSpace(context.Result().String())), nil
+	return String(normalizeSpace(context.Result().String())), nil
 }
 
 func normalizeSpace1(context Context, args ...Result) (Result, error) {
-	return String(strings.TrimSpace(args[0].String())), nil
+	return String(normalizeSpace(args[0].String())), nil
+}
+
+// normalizeSpace strips leading and trailing whitespace and replaces every
+// internal run of whitespace by one space, where whitespace is what XML calls
+// so (space, tab, CR, LF) and not the larger Unicode class.
+func normalizeSpace(str string) string {
+	fields := strings.FieldsFunc(str, func(r rune) bool {
+		return r == ' ' || r == '\t' || r == '\r' || r == '\n'
+	})
+
+	return strings.Join(fields, " ")
 }
 
 func translate(context Context, args ...Result) (Result, error) {
